@@ -50,7 +50,11 @@ type Event struct {
 	CBName    string
 	CBErr     error
 	CBRuntime time.Duration
+	CBPanics  bool // the callback panicked after logging this event
 }
+
+// CBPanicVal is what a panicking callback panics with.
+type CBPanicVal struct{ Fn int }
 
 type UserErr struct {
 	Fn, Exec int
@@ -104,13 +108,14 @@ type RT struct {
 	scopeOf   func(int) scopeAPI // set by Run: scope index -> live scope
 	decoIDs   map[int]bool       // fn ids registered through Decorate
 	Reentered int
+	cbCalls   map[int]int
 	infos     infoSlots
 	active    map[int]int // fn → number of bodies currently on the stack
 	Nested    []int       // fns whose body was entered while already running
 }
 
 func newRT() *RT {
-	return &RT{infos: infoSlots{map[int]*dig.ProvideInfo{}, map[int]*dig.DecorateInfo{}, map[int]*dig.InvokeInfo{}}, decoIDs: map[int]bool{}, ftypes: map[*Fn]reflect.Type{}, execs: map[int]int{}, errs: map[[2]int]*UserErr{}, panics: map[[2]int]interface{}{}, ek: map[int]int{}, pk: map[int]int{}, active: map[int]int{}}
+	return &RT{cbCalls: map[int]int{}, infos: infoSlots{map[int]*dig.ProvideInfo{}, map[int]*dig.DecorateInfo{}, map[int]*dig.InvokeInfo{}}, decoIDs: map[int]bool{}, ftypes: map[*Fn]reflect.Type{}, execs: map[int]int{}, errs: map[[2]int]*UserErr{}, panics: map[[2]int]interface{}{}, ek: map[int]int{}, pk: map[int]int{}, active: map[int]int{}}
 }
 
 func (rt *RT) newTok(fn, exec int, slot string, elem int) int64 {
